@@ -91,18 +91,27 @@ def linear_fluxes(S, rep, tier):
 
 def step_adds_fluxes(S, rep, tier):
     """C04.c: in the step every change of the conserved field is `+ c * conservative flux`, damping is
-    homogeneous, and zero data stays zero (trace-level zero propagation)"""
+    homogeneous, and zero data stays zero"""
+    from .simtools import parallel_over
+    cfgs = []
     for kind in ("2d", "3d", "passive"):
-        cfgs = sim_configs(kind, tier)
+        cs = sim_configs(kind, tier)
         if tier == "quick" and kind == "3d":
-            cfgs = [c for c in cfgs if c["poisson_solver_type"] == "greens_function_convolution"][:6]
-        for cfg in cfgs:
+            cs = [c for c in cs if c["poisson_solver_type"] == "greens_function_convolution"][:6]
+        cfgs += cs
+    parallel_over(S, rep, "sa.props.c04", "step_config", cfgs)
+
+
+def step_config(S, cfg, rep):
+    if True:
+        if True:
+            kind = cfg["kind"]
             run = stepped_sim(S, cfg)
             lab = run.label()
             if run.raised is not None or run.problems or run.store is None:
                 rep.ob("C04.c", lab, False, "time step cannot be analysed: %s %s" % (run.raised, [p.msg for p in run.problems][:2]),
                        key="C04.c|%s|raises" % lab)
-                continue
+                return
             st = run.store
             cons = "primary_field" if kind == "passive" else "vorticity_field"
             for name in st.def_order:
